@@ -20,14 +20,19 @@ structure Cfg where
   dropXmlDecl : Bool := true
   deriving Repr
 
+/-- EmptyTagFilter, then WhitespaceFilter iff `strip_whitespace` -/
+def preFlat (m : Method) (strip : Bool) (s : Stream) : List QEv :=
+  if strip then wsFilter (wsCfg m) {} (emptyTag none s) else emptyTag none s
+
+/-- DocTypeInserter iff a doctype option is given -/
+def withDoctype (d : Option DocTypeT) (fs : List FEv) : List FEv :=
+  match d with
+  | some d => docTypeInsert d fs
+  | none => fs
+
 /-- the filters in front of the main loop; `none` outside the lite flattener's domain -/
-def filtered (m : Method) (cfg : Cfg) (s : Stream) : Option (List FEv) := do
-  let es := emptyTag none s
-  let es := if cfg.strip then wsFilter (wsCfg m) {} es else es
-  let fs ← flatten cfg.cache (flatInit m) es
-  pure (match cfg.doctype with
-        | some d => docTypeInsert d fs
-        | none => fs)
+def filtered (m : Method) (cfg : Cfg) (s : Stream) : Option (List FEv) :=
+  (flatten cfg.cache (flatInit m) (preFlat m cfg.strip s)).map (withDoctype cfg.doctype)
 
 def chunks (m : Method) (cfg : Cfg) (s : Stream) : Option (List Str) :=
   (filtered m cfg s).map (loop m ⟨cfg.dropXmlDecl⟩ cfg.cache {})
